@@ -208,7 +208,14 @@ def rule_cmcanon(ctx):
     C12.serializer_obligations(ctx, facts, rule="CM-CANON", scope="parsed")
 
 
+def rule_witness(ctx):
+    if ctx.tier == 'thorough':
+        from . import witness
+        witness.run_witnesses(ctx)
+
+
 RULES = [
+    ("WITNESS", rule_witness, 0),
     ("CONSTRUCT", rule_construct, 2),
     ("EXPOSE", rule_expose, 10),
     ("BM-ORDER", rule_order, 20),
